@@ -331,7 +331,8 @@ def consumer_got(vm, st, nf, value):
         def yes(s):
             f = s.frames[-1]
             write_back(vm, s, f.data)
-            return finish_native(vm, s, f, some(bv(idx, 64)))
+            found = idx if len(c) < 3 else c[2] - 1 - idx        # rposition: searched from the back
+            return finish_native(vm, s, f, some(bv(found, 64)))
 
         def no(s):
             q = s.frames[-1].data = s.frames[-1].data.clone()
@@ -448,6 +449,48 @@ def s_iter_consumer(kind):
         return start_pull(vm, st, itv, consumer, dest, ret_bb, acc=acc, iter_ptr=ptr)
     h.__name__ = f's_iter_{kind}'
     return h
+
+
+def s_iter_rposition(vm, st, callee, args, dest, ret_bb, m):
+    """Iterator::rposition on an exact-size iterator without adapters: search from the back, index counted from the front"""
+    itv, ptr = get_iter(vm, st, args[0])
+    if itv.stages:
+        raise Unsupported('rposition behind iterator adapters')
+    n = len(itv.items)
+    rev = IterV(tuple(reversed(itv.items)), (), itv.count)
+    return start_pull(vm, st, rev, ('position', args[1], n), dest, ret_bb, acc=None, iter_ptr=None)
+
+
+def s_index_range(vm, st, callee, args, dest, ret_bb, m):
+    """<Vec<T> / [T] as Index<RangeFrom | RangeTo | Range<usize>>>::index with concrete bounds -> sub-slice reference"""
+    kind = m.group(1)
+    base = args[0]
+    items = slice_items(vm, st, base)
+    rng = args[1]
+
+    def bound(x):
+        x = simp(x) if z3.is_expr(x) else x
+        if not z3.is_bv_value(x):
+            raise Unsupported('slice range with a symbolic bound')
+        return x.as_long()
+    if kind == 'RangeFrom':
+        lo, hi = bound(rng.fields[0]), len(items)
+    elif kind == 'RangeTo':
+        lo, hi = 0, bound(rng.fields[0])
+    else:
+        lo, hi = bound(rng.fields[0]), bound(rng.fields[1])
+    if not (0 <= lo <= hi <= len(items)):
+        return Outcome('panic', st, msg='slice index out of range')
+    if not items:
+        p0 = base
+        while isinstance(p0, Ptr) and p0.meta is None and isinstance(vm.load(st, p0), Ptr):
+            p0 = vm.load(st, p0)
+        return done(vm, st, dest, ret_bb, Ptr(p0.cell, p0.path, ('slice', 0, 0)))
+    first = items[0]
+    # element pointers are (cell, path + (('i', k),)): rebuild a slice pointer over the same container
+    cont_path = first.path[:-1]
+    start = first.path[-1][1]
+    return done(vm, st, dest, ret_bb, Ptr(first.cell, cont_path, ('slice', start + lo, hi - lo)))
 
 
 def s_peekable(vm, st, callee, args, dest, ret_bb, m):
@@ -1524,6 +1567,8 @@ TABLE = [
     (r' as Iterator>::find::<', s_iter_consumer('find')),
     (r' as Iterator>::find_map::<', s_iter_consumer('find_map')),
     (r' as Iterator>::position::<', s_iter_consumer('position')),
+    (r' as Iterator>::rposition::<', s_iter_rposition),
+    (r'^<(?:Vec<.*>|\[.*\]) as std::ops::Index<std::ops::(RangeFrom|RangeTo|Range)<usize>>>::index$', s_index_range),
     (r' as Iterator>::for_each::<', s_iter_consumer('for_each')),
     (r' as Iterator>::collect::<Vec<', s_iter_consumer('collect')),
     (r' as Iterator>::count$', s_iter_consumer('count')),
